@@ -305,6 +305,10 @@ def check_after(rep, prog, fn, call):
                     if d.enclosing('VarDecl') is not None and d.enclosing('VarDecl').decl_id == root:
                         continue
                     if not cfg.reaches(call, d) or cfg.reaches(d, call):
+                        up_ = d.up()
+                        if up_ is not None and up_.k == 'MemberExpr' and up_.fnref and up_.fnref['name'] in ('reserve', 'clear', 'shrink_to_fit') and \
+                                cfg.reaches(d, call) and not cfg.reaches(call, d):
+                            continue        # capacity set up by the calling thread before any task exists
                         bad.append(d)
             # reads inside the body
             for lf in fs:
